@@ -312,9 +312,20 @@ impl<'a> ExecutionEngine<'a> {
         self.aggregate_execution_engine.execute_result(aggregate_statement)
     }
 
+    pub fn reached_limit(&self) -> bool {
+        match self.statement {
+            Statement::Select(select_statement) => select_statement.limit.map(|limit| self.num_output_rows >= limit).unwrap_or(false),
+            _ => false
+        }
+    }
+
     fn update_limit(&mut self, limit: Option<usize>, mut output: ExecutionOutput) -> ExecutionOutput {
-        if let Some(row) = output.result_row.as_ref() {
-            self.num_output_rows += row.data.iter().filter(|row| row.any_result()).count();
+        if let Some(row) = output.result_row.as_mut() {
+            if let (Some(limit), Statement::Select(_)) = (limit, self.statement) {
+                row.data.truncate(limit.saturating_sub(self.num_output_rows));
+            }
+
+            self.num_output_rows += row.data.len();
         }
 
         if let Some(limit) = limit {
